@@ -1,4 +1,5 @@
 import MiniconfVerif.Lemmas.GenTieMqtt
+import MiniconfVerif.Lemmas.GenTieMqttCompose
 import MiniconfVerif.Lemmas.MqttEpoch
 import MiniconfVerif.Gen.Consts
 
@@ -141,5 +142,27 @@ theorem source_update_is_model {σ : Type} (ops : SettingsOps σ) (pfx : Str) (c
       m.1.st = stOfGen cl.st ∧ m.1.pending = cl.pending ∧ m.1.timeout = tmoOf c.timeout o.now cl.log ∧
       m.2.1 = cl.ext.1 ∧ m.2.2.1 = cl.ext.2 ∧ boolOfRet m.2.2.2 = r :=
   update_tie ops pfx c s o
+
+open MiniconfVerif.Gen MiniconfVerif.Gen.Core MiniconfVerif.Gen.Mqtt MiniconfVerif.GenTie MiniconfVerif.PathIter in
+/-- **One `update()` call with every sub-procedure in its translated form**: `source_update_is_model` takes `dump(None)`,
+`iter_list` and `iter_dump` as the *model's* functions (an environment of the dispatch); here they are the translations —
+`Gen.Mqtt.dump` with `None`, and the loops `Gen.Mqtt.iter_list_body` / `iter_dump_body` run as written (`runListG`,
+`runDumpG`) on the client part, their publications appended to the wire log — and the whole call still equals the model's
+`step` on which this property's theorems (`epoch_invariant`, `epoch_order`, `loss_restarts`, `transitions`) are proved:
+same protocol state, pending request, dump time-out, settings, wire output in order, and result. Hypotheses: the tree has
+leaves below its root (`Multipart::default()`), and a pending dump walks leaf paths of the type (what `NodeIter` yields).
+What stays an environment: `poll()` around the translated closure (minimq), `alive()` / `subscribe()` (skeleton-checked). -/
+theorem source_update_composed_is_model {σ : Type} (ops : SettingsOps σ) (pfx : Str) (c : Client) (s : σ) (o : Obs)
+    (env : Env Unit Unit Pend) (envD : Env Unit Unit Pending)
+    (hroot : (ops.leavesBelow []).isSome)
+    (hok : c.st = .multipart → c.pending.respTopic = none → LeafPathsOk ops s c.pending.remaining) :
+    ∃ cl r, update ({ pubGet := .ok (), mpTry := .error "", mpRoot := fun _ => none, setRes := .ok 0,
+                      guard := guardOf c.timeout o.now } : Env Unit Unit Pending)
+        (uenvG ops pfx c.timeout o env envD)
+        ({ st := stToGen c.st, pending := c.pending, ext := (s, []) } : UCl σ) = .val (cl, r) ∧
+      let m := step ops pfx c s o
+      m.1.st = stOfGen cl.st ∧ m.1.pending = cl.pending ∧ m.1.timeout = tmoOf c.timeout o.now cl.log ∧
+      m.2.1 = cl.ext.1 ∧ m.2.2.1 = cl.ext.2 ∧ boolOfRet m.2.2.2 = r :=
+  update_composed_tie ops pfx c s o env envD hroot hok
 
 end MiniconfVerif.C13
